@@ -109,6 +109,14 @@ impl LossIntervalQueue {
     }
 }
 
+#[cfg(uflow_verif)]
+impl LossIntervalQueue {
+    pub fn verif_dump(&self) -> String {
+        let v: Vec<String> = self.entries.iter().map(|e| format!("{}/{}", e.end_time_ms, e.length)).collect();
+        format!("li=[{}]", v.join(","))
+    }
+}
+
 #[cfg(test)]
 mod tests {
     use super::*;
